@@ -62,7 +62,7 @@ def _gen_param(r: Any, allow_untagged: bool) -> Dict[str, Any]:
 
 def _gen_lr(r: Any) -> Any:
     k = r.choice(["float", "float", "tensor", "tensor", "int"])
-    v = r.choice([1e-3, 0.01, 0.1, 0.5, 1.0, 2.0, 0.25])
+    v = r.choice([1e-3, 0.01, 0.1, 0.5, 1.0, 2.0, 0.25, 1e-3, 0.1, 1.0, 1e-7, 3e-10, 4096.0])  # "whatever its (positive) learning rate"
     if k == "int":
         return {"kind": "int", "v": r.choice([1, 2])}
     return {"kind": k, "v": v}
